@@ -237,6 +237,17 @@ def run(ctx):
     rng = ctx.rng
     n = 600 if ctx.quick else 24000
     cases = [gen_doc(rng) for _ in range(n)]
+    # corpus: a unit of the parameter section that "ends with its only colon" -- a Google argument whose description starts on the next
+    # line, a footer heading right behind the NumPy parameters -- makes the parser move the rest of the section into the description
+    for lvl in (0, 1):
+        pad = "    " * lvl
+        for style, body in (("google", ["Args:", "  signal (list): The samples", "  callbacks (list):", "    what to call afterwards", "  gain (float): The gain factor"]),
+                            ("numpydoc", ["Parameters", "----------", "signal : list", "    The samples", "Example:", "    >>> f(1)"])):
+            header = ["Scale every sample of the signal.", "", "Training stops early when the loss stops improving."]
+            lines = header + [""] + body
+            cases.append({"doc": "\n" + "\n".join((pad + l) if l else l for l in lines) + "\n" + pad, "style": style, "level": lvl,
+                          "header_lines": [l for l in header if l], "footer_lines": [], "params": ["signal"] if style == "numpydoc" else ["signal", "callbacks", "gain"],
+                          "has_footer": False, "footer_kind": None, "ending": "\n" + pad, "tabbed_blanks": False, "glued": False})
     batches = [cases[i:i + 50] for i in range(0, len(cases), 50)]
     agg = {"n": 0, "split_ok": 0, "conv_ok": 0, "conv_err": 0}
     corr = []
